@@ -4,6 +4,7 @@ use crate::eng_codec::{ReadEngine, WriteEngine};
 use crate::eng_hpack::{self, DecEngine, EncEngine, SplitEngine};
 use crate::eng_pair::PairEngine;
 use crate::eng_raw::{CatalogueServerEngine, HttpEngine};
+use crate::eng_raw2::{AcksEngine, ShutdownEngine};
 use crate::sim_pair::Focus;
 use crate::runner::{self, drive, finish, Ctx, Engine, Report, RunStats, Tier};
 use serde_json::{json, Value};
@@ -134,6 +135,19 @@ pub fn run_check(id: &str, tier: Tier) -> i32 {
             }
             assumptions.push("refmodel::http transcribes RFC 9113 §8 / RFC 8441 §4 for the classes C13 names; field value syntax is out of scope".into());
         }
+        "C14" => {
+            parts.push(run_engine(&AcksEngine, &ctx, scale(tier, 8_000, 300_000)));
+            assumptions.push("acknowledgement order is demanded per kind (PING acks among themselves, SETTINGS acks among themselves)".into());
+        }
+        "C15" => {
+            parts.push(run_engine(&ShutdownEngine { server: true }, &ctx, scale(tier, 8_000, 300_000)));
+            if parts.iter().all(|p| p.failure.is_none()) {
+                parts.push(run_engine(&ShutdownEngine { server: false }, &ctx, scale(tier, 8_000, 300_000)));
+            }
+            if parts.iter().all(|p| p.failure.is_none()) {
+                parts.push(run_engine(&PairEngine { focus: Focus::Faults }, &ctx, scale(tier, 4_000, 100_000)));
+            }
+        }
         "C12" => {
             parts.push(run_engine(&WriteEngine, &ctx, scale(tier, 40_000, 1_000_000)));
             if parts.iter().all(|p| p.failure.is_none()) {
@@ -178,6 +192,9 @@ pub fn replay(path: &str) -> i32 {
         "hpack-enc-big" => runner::replay_case(&EncEngine { big: true }, case),
         "codec-write" => runner::replay_case(&WriteEngine, case),
         "raw-catalogue-server" => runner::replay_case(&CatalogueServerEngine, case),
+        "raw-acks-server" => runner::replay_case(&AcksEngine, case),
+        "raw-shutdown-server" => runner::replay_case(&ShutdownEngine { server: true }, case),
+        "raw-goaway-client" => runner::replay_case(&ShutdownEngine { server: false }, case),
         "raw-http-server" => runner::replay_case(&HttpEngine { server: true }, case),
         "raw-http-client" => runner::replay_case(&HttpEngine { server: false }, case),
         "pair-coop" => runner::replay_case(&PairEngine { focus: Focus::Coop }, case),
